@@ -155,6 +155,36 @@ Proof.
   - intros E. specialize (IH E). lia.
 Qed.
 
+(* the bars parked behind b and the rest of the queue *)
+Lemma cnt_successors x b (m : list (Z * Z)) :
+  cnt x (map snd m) = (cnt x (successors b m) + cnt x (map snd (remove_key b m)))%nat.
+Proof.
+  induction m as [|[k v] m IH]; cbn [map snd successors remove_key cnt]; [reflexivity|].
+  destruct (b =? k); cbn [map snd cnt]; lia.
+Qed.
+
+Lemma map_fst_pair (l : list Z) (y : bool) : map fst (map (fun qb : Z => (qb, y)) l) = l.
+Proof. induction l as [|a l IH]; cbn; [reflexivity|]. rewrite IH. reflexivity. Qed.
+
+Lemma promote_bars_known x qbs p : forall bs, lookup x bs <> None -> lookup x (promote_bars bs qbs p) <> None.
+Proof.
+  induction qbs as [|qb qbs IH]; intros bs L; cbn [promote_bars]; [exact L|].
+  apply IH. destruct (lookup qb bs); [apply lookup_update_known; exact L|exact L].
+Qed.
+
+Lemma promote_bars_other x qbs p : forall bs, ~ In x qbs -> lookup x (promote_bars bs qbs p) = lookup x bs.
+Proof.
+  induction qbs as [|qb qbs IH]; intros bs N; cbn [promote_bars]; [reflexivity|].
+  rewrite IH by (intros I; apply N; right; exact I).
+  destruct (lookup qb bs); [|reflexivity]. apply lookup_update_other. intros ->. apply N. left. reflexivity.
+Qed.
+
+Lemma In_successors x b q : In x (successors b q) -> In x (map snd q).
+Proof.
+  induction q as [|[k v] q IH]; cbn [successors map snd]; [auto|].
+  destruct (b =? k); [intros [->|I]; [left; reflexivity|right; auto]|intros I; right; auto].
+Qed.
+
 Lemma cnt_tl x l : (cnt x (tl l) <= cnt x l)%nat.
 Proof. destruct l; cbn; lia. Qed.
 
@@ -242,7 +272,7 @@ Ltac simp_state :=
   cbn [bars heap fifo ph popped queue retired upd_bar cs_bars cs_heap cs_hsync cs_hlen cs_hdirty
     cs_iterating cs_popped cs_fifo cs_queue cs_pop_prio cs_id_count cs_ph cs_cwbuf cs_delayed cs_pend_writes cs_pend_fix
     cs_outframes cs_cancelled cs_done_seen cs_ended cs_errored cs_cycle_pops cs_cycle_flushed cs_iter_heap cs_iter_dirty
-    cs_retired cs_ct_exited cs_wlog cs_cycle_err cs_out_pending cs_matrix cs_final_done final_done matrix out_pending ph_pushes hsync hlen hdirty iterating pop_prio id_count pop_mode auto_mode cwbuf delayed pend_writes
+    cs_retired cs_ct_exited cs_wlog cs_cycle_err cs_out_pending cs_matrix cs_final_done cs_released promote released final_done matrix out_pending ph_pushes hsync hlen hdirty iterating pop_prio id_count pop_mode auto_mode cwbuf delayed pend_writes
     pend_fix outframes cancelled done_seen ended errored ct_exited wlog cycle_err cycle_pops cycle_flushed iter_heap iter_dirty] in *.
 
 Ltac norm_places :=
@@ -261,8 +291,9 @@ Ltac norm_places :=
   | H : fifo_pushes ?l = _ |- _ => rewrite H in *; clear H
   end;
   simp_state;
-  rewrite ?map_app, ?fifo_pushes_app, ?fifo_pushes_map, ?cnt_app in *;
-  cbn [fifo_pushes cnt map fst snd tl app ph_pushes] in *.
+  rewrite ?map_app, ?fifo_pushes_app, ?fifo_pushes_map, ?map_fst_pair, ?cnt_app in *;
+  cbn [fifo_pushes cnt map fst snd tl app ph_pushes] in *;
+  rewrite ?map_fst_pair in *.
 
 Ltac split_popped :=
   repeat match goal with
@@ -276,21 +307,18 @@ Ltac use_facts x :=
       apply memZ_In in H; pose proof (cnt_removeZ x b (heap s) H); clear H
   | H : lookup ?b (queue ?s) = Some ?v |- _ =>
       pose proof (cnt_remove_key x b (queue s) v H); clear H
+  | H : successors ?b (queue ?s) = _ |- _ =>
+      let C := fresh "Csucc" in pose proof (cnt_successors x b (queue s)) as C; rewrite H in C; clear H; cbn [cnt] in C
   end.
 
 Lemma step_Uniq s e s' : step s e = Some s' -> Known s -> Uniq s -> Uniq s'.
 Proof.
   intros H K U x. pose proof (U x) as Ux. rewrite places_cnt in *.
   destruct e; break_step H; use_fifo_pop; simp_state; try lia; split_popped; norm_places; try lia; use_facts x; try lia.
-  - (* CT_ADD, parked behind another bar *)
-    pose proof (cnt_update_values x z b (queue s)).
-    destruct (Z.eqb_spec x b) as [->|N]; [|lia].
-    match goal with L : lookup b (bars s) = None |- _ => pose proof (fresh_cnt s b b K L eq_refl) as F end.
-    rewrite places_cnt in F. lia.
-  - (* CT_ADD, pushed *)
-    destruct (Z.eqb_spec x b) as [->|N]; [|lia].
-    match goal with L : lookup b (bars s) = None |- _ => pose proof (fresh_cnt s b b K L eq_refl) as F end.
-    rewrite places_cnt in F. lia.
+  (* CT_ADD: pushed at once behind a released bar, parked, pushed *)
+  all: match goal with L : lookup ?b0 (bars ?s0) = None |- _ =>
+         destruct (Z.eqb_spec x b0) as [->|N]; [|lia]; pose proof (fresh_cnt s0 b0 b0 K L eq_refl) as F end.
+  all: rewrite places_cnt in F; lia.
 Qed.
 
 Definition added (e : ev) (x : Z) : nat :=
@@ -302,14 +330,13 @@ Proof.
   intros H. rewrite !places_cnt.
   destruct e; break_step H; use_fifo_pop; simp_state; cbn [added]; try lia; split_popped; norm_places; try lia;
     use_facts x; try lia.
-  - pose proof (cnt_update_values x z b (queue s)). lia.
 Qed.
 
 Lemma step_bars_mono s e s' x :
   step s e = Some s' -> lookup x (bars s) <> None -> lookup x (bars s') <> None.
 Proof.
   intros H L.
-  destruct e; break_step H; use_fifo_pop; simp_state; auto; repeat apply lookup_update_known; auto.
+  destruct e; break_step H; use_fifo_pop; simp_state; auto; try apply promote_bars_known; repeat apply lookup_update_known; auto.
 Qed.
 
 Lemma step_added_known s e s' x :
@@ -639,6 +666,12 @@ Proof.
   apply cnt_In in Hh. lia.
 Qed.
 
+Lemma not_in_heap_successor s b x : Uniq s -> In x (successors b (queue s)) -> ~ In x (heap s).
+Proof.
+  intros U L Hh. specialize (U x). rewrite places_cnt in U.
+  apply In_successors in L. apply cnt_In in L. apply cnt_In in Hh. lia.
+Qed.
+
 Lemma bar_op_prio r c t f tr ab rmf sh r' : bar_op r c t f tr ab rmf sh = Some r' -> br_prio r' = br_prio r.
 Proof.
   unfold bar_op. destruct (br_after_render r).
@@ -673,9 +706,10 @@ Ltac srt_flush :=
       intros m Hm; unfold prio_of; simp_state;
       assert (m <> b0) by (intros ->; eapply (not_in_heap_popped s0 b0); eauto; rewrite Hp; left; reflexivity);
       try match goal with
-          | Hq : lookup b0 (queue s0) = Some ?q0 |- _ =>
-              assert (m <> q0) by (intros ->; eapply (not_in_heap_queued s0 b0 q0); eauto)
+          | Hq : successors b0 (queue s0) = ?qs |- _ =>
+              assert (~ In m qs) by (intros I; eapply (not_in_heap_successor s0 b0 m); eauto; rewrite Hq; exact I)
           end;
+      rewrite ?promote_bars_other by assumption;
       rewrite ?lookup_update_other by assumption; reflexivity
   end.
 
@@ -714,12 +748,10 @@ Proof.
   destruct e; break_step H; use_fifo_pop; try assumption;
     try (srt_same s; fail); prep; try (srt_same s; try congruence; fail);
     try (srt_flush; fail); try (srt_closure; fail).
-  - (* CT_ADD parked *) apply (Srt_bars s); simp_state; auto. intros m Hm.
-    unfold prio_of; simp_state. rewrite lookup_update_other; [reflexivity|].
-    intros ->. apply (K b); [unfold places; apply in_or_app; auto|assumption].
-  - (* CT_ADD pushed *) apply (Srt_bars s); simp_state; auto. intros m Hm.
-    unfold prio_of; simp_state. rewrite lookup_update_other; [reflexivity|].
-    intros ->. apply (K b); [unfold places; apply in_or_app; auto|assumption].
+  1-3: (* CT_ADD: pushed behind a released bar, parked, pushed *)
+    apply (Srt_bars s); simp_state; auto; intros m Hm;
+    assert (m <> b) by (intros ->; apply (K b); [unfold places; apply in_or_app; auto|assumption]);
+    unfold prio_of; simp_state; rewrite !lookup_update_other by assumption; reflexivity.
   - (* HM_ITERREQ, ordered: a fresh iteration *)
     intros D. simp_state. split; [constructor|]. intros _ p [].
   - (* HM_POP, last bar *) eapply srt_pop; eauto.
